@@ -37,6 +37,23 @@ CHECKS = {
         technique="Lean 4 proof over a hand-written model + exhaustive differential correspondence (model driver vs real "
                   "WSGI callable, <=4/5 segments over 9 segment kinds x relative/absolute x route x method x 2 root settings)",
     ),
+    "C16": dict(
+        category="proof",
+        text="Lean theorems for ALL strings about the model of escape_identifier_name / Schema / Table / Path / SubQuery / "
+             "Column / SqlFluffTable.of / to_source_columns (unquoted names are case-insensitive; each quote style keeps case "
+             "and loses only the quotes; last-dot split; three-part limit; equal entities hash equally; the same spelling "
+             "gives the same column / table / schema at every creation site, incl. written-then-read) + exhaustive "
+             "correspondence of the model with the real functions on every string over a 9-character alphabet up to length "
+             "5/6, on SqlFluffTable.of and to_source_columns, eq/hash on real objects, and SQL-level spelling x position x "
+             "dialect runs judged implementation-vs-implementation",
+        design_ref="DESIGN.md §5 C16",
+        note=TB + ". The model describes the code with fixes/D20-*.patch and fixes/D21-*.patch applied; two residual "
+             "double-normalisation sites are recorded findings (D20-scalar-subquery, D20-unknown-qualifier). Assumed: ASCII "
+             "identifiers; sqlfluff's parse trees and sqlparse's remove_quotes as observed; SqlFluffTable.of is driven with "
+             "duck-typed segments in the direct part and with real trees in the SQL-level part.",
+        technique="Lean 4 proof over a hand-written model + exhaustive differential correspondence (model driver vs real "
+                  "functions) + metamorphic SQL-level check (same statement under the plain spelling, renamed)",
+    ),
 }
 
 CHECKS["C03"] = dict(
@@ -70,9 +87,27 @@ CHECKS["C01"] = dict(
          "listed deviation class",
     design_ref="DESIGN.md §5 C01, §6 D1-D5, Appendix A/B",
     note=TB + ". partial: the step text -> sqlfluff tree (third-party grammars) is not modelled; UPDATE/MERGE/COPY/SELECT INTO are not "
-         "in the typed AST yet. Known findings D1, D2, D2w, D3, D4, D5, D7 (table lineage lost at specific syntactic positions).",
+         "in the typed AST yet. D1 repaired (4da7204). Known findings D2, D2w, D3, D4, D5, D7 (table lineage lost at specific syntactic positions).",
     technique="Lean 4 model + specification with proved dispatch lemmas; three-way differential (implementation / model / specification) "
               "on Lean-rendered SQL",
+)
+
+CHECKS["C02"] = dict(
+    category="proof",
+    text="Lean theorems about the column layer of the model for every expression / alias map / graph: the naming rule (alias, "
+         "else own name, else expression text; source references independent of the text), scope resolution (qualified reference "
+         "resolves to the relation answering to the qualifier; unknown qualifier becomes a table, never a guess; unqualified "
+         "reference resolves to the only relation, or carries exactly the scope as candidates whatever the set iteration order), "
+         "which names a table answers to, positional wiring rule of end_of_query_cleanup, D6/D7 mechanisms. The end-to-end "
+         "statement pairs_exact is NOT proved (kept as a comment): the composition of the layers is tied to the code by the "
+         "SQL-level correspondence — every generated data-moving statement (bounded-exhaustive shapes + seeded random, expression "
+         "depth<=3, nesting<=4) run through the real LineageRunner under 3 (quick) / all (thorough) dialects, complete path sets "
+         "compared with the model's, tolerant only of the hash-order class D16",
+    design_ref="DESIGN.md §5 C02, §6 D6-D9, D25",
+    note=TB + ". partial (staged): no Lean specification of column dataflow yet; `_get_column_from_subquery` (sqlparse analyzer on the raw "
+         "subquery text) is not modelled, so statements with a subquery inside a select item are outside the column-level "
+         "correspondence; UPDATE/MERGE not in the typed AST. Known findings D6, D7, D16, D25.",
+    technique="Lean 4 proof of the column-resolution layer + differential correspondence of complete column path sets on Lean-rendered SQL",
 )
 
 NOT_YET = "machinery not built yet (build phase in progress, see DESIGN.md §9)"
